@@ -83,6 +83,8 @@ func c04Update(x *mc.Cell, pull bool) {
 				if state == "finalizing" {
 					first.RequiresFinalization = true
 				}
+				// the bystander exists first; the received channel under test carries its transfer id
+				by, _ := bystander(n)
 				var chid datatransfer.ChannelID
 				switch state {
 				case "unknown":
@@ -95,10 +97,10 @@ func c04Update(x *mc.Cell, pull bool) {
 					chid = c
 					mc.Wait()
 				default:
-					chid = mkReceived(n, pull, 7, first)
+					chid = mkReceived(n, pull, uint64(by.ID), first)
 					driveTo(n, chid, pull, state)
 				}
-				by, byDigest := bystander(n)
+				byDigest := digestOf(n, by)
 				beforeVec, beforeErr := n.Vec(chid)
 				res, _ := a.result()
 				mk := n.Mark()
